@@ -14,16 +14,16 @@ theorem npRun_append (a : Bool) (st : NPState) (x y : Text) :
 
 /-- Outside quotes, characters other than `.` and `"` are appended to the buffer. -/
 theorem npRun_bare (a : Bool) (st : NPState) (w : Text) (hq : st.inQuotes = false)
-    (hw : ∀ c ∈ w, c ≠ '.' ∧ c ≠ '"') :
+    (hs : st.quotedSeg = false) (hw : ∀ c ∈ w, c ≠ '.' ∧ c ≠ '"') :
     npRun a st w = .ok { st with buf := st.buf ++ w } := by
   induction w generalizing st with
   | nil => simp [npRun]
   | cons c cs ih =>
     have hc := hw c (by simp)
     have hstep : npStep a st c = .ok { st with buf := st.buf ++ [c] } := by
-      simp [npStep, hq, hc.1, hc.2]
+      simp [npStep, hq, hs, hc.1, hc.2]
     simp only [npRun, hstep]
-    rw [ih { st with buf := st.buf ++ [c] } hq (fun d hd => hw d (by simp [hd]))]
+    rw [ih { st with buf := st.buf ++ [c] } hq hs (fun d hd => hw d (by simp [hd]))]
     simp [List.append_assoc]
 
 /-- Inside quotes, the canonical escaping of `n` appends exactly `n`. -/
@@ -73,18 +73,18 @@ theorem isIdent_ne_nil (n : Text) (h : isIdent n = true) : n ≠ [] := by
 
 /-- What one rendered segment does to a tokenizer state that is at a segment boundary. -/
 theorem npRun_renderSeg (a : Bool) (st : NPState) (n : Text) (hq : st.inQuotes = false)
-    (he : st.escape = false) (hb : st.buf = []) :
+    (he : st.escape = false) (hb : st.buf = []) (hs : st.quotedSeg = false) :
     npRun a st (renderSeg n) =
       .ok { st with buf := n, quotedSeg := (st.quotedSeg || !isIdent n) } := by
   by_cases hi : isIdent n = true
   · simp only [renderSeg, hi, if_true]
-    rw [npRun_bare a st n hq (isIdent_chars n hi)]
+    rw [npRun_bare a st n hq hs (isIdent_chars n hi)]
     simp [hb]
   · have hi' : isIdent n = false := by simpa using hi
     simp only [renderSeg, hi', Bool.false_eq_true, if_false, List.cons_append]
     simp only [npRun]
     have s1 : npStep a st '"' = .ok { st with inQuotes := true } := by
-      simp [npStep, hq, hb]
+      simp [npStep, hq, hb, hs]
     simp only [s1]
     rw [npRun_append, npRun_inQuotes a { st with inQuotes := true } n rfl he]
     simp [Except.bind, npRun, npStep, he, hb, hq]
@@ -113,11 +113,11 @@ theorem npRun_path (a : Bool) (acc : List Seg) (n : Text) (ns : List Text) :
   induction ns generalizing acc n with
   | nil =>
     simp only [List.map, joinWith, endState]
-    rw [npRun_renderSeg a _ n rfl rfl rfl]
+    rw [npRun_renderSeg a _ n rfl rfl rfl rfl]
     simp
   | cons m ms ih =>
     simp only [List.map, joinWith, endState]
-    rw [npRun_append, npRun_append, npRun_renderSeg a _ n rfl rfl rfl]
+    rw [npRun_append, npRun_append, npRun_renderSeg a _ n rfl rfl rfl rfl]
     simp only [Except.bind, Bool.false_or, npRun]
     have hdot : npStep a { segs := acc, buf := n, inQuotes := false, quotedSeg := !isIdent n, escape := false } '.' =
         .ok { segs := acc ++ [segOf n], buf := [], inQuotes := false, quotedSeg := false, escape := false } := by
@@ -200,10 +200,12 @@ theorem npStep_ok (st st' : NPState) (c : Char) (h : npStep false st c = .ok st'
   · split at h
     · exact npFinalize_ok st st' h hs
     · split at h
+      · cases h
       · split at h
-        · cases h
+        · split at h
+          · cases h
+          · injection h with h; subst h; exact hs
         · injection h with h; subst h; exact hs
-      · injection h with h; subst h; exact hs
 
 theorem npRun_ok (st st' : NPState) (p : Text) (h : npRun false st p = .ok st')
     (hs : SegsOK st.segs) : SegsOK st'.segs := by
